@@ -93,4 +93,11 @@ ApplyBlock(blk, a, p) == LET xa == Bit(XM(p), a) za == Bit(ZM(p), a)
                                 SetBit(ZM(p), a, (blk[3] * xa + blk[4] * za) % 2), 0)
 (* sign-free local class action used by the orbit / optimality models *)
 Loc(c, a, p) == ApplyBlock(LocBlocks[c + 1], a, Body(p))
+(* a gate word realising class c on qubit q (the words local_clifford_layer_to_circuit documents) *)
+LocWord(c, q) == CASE c = 0 -> <<>>
+                   [] c = 1 -> <<<<"h", q, -1>>>>
+                   [] c = 2 -> <<<<"s", q, -1>>>>
+                   [] c = 3 -> <<<<"s", q, -1>>, <<"h", q, -1>>>>
+                   [] c = 4 -> <<<<"h", q, -1>>, <<"s", q, -1>>>>
+                   [] c = 5 -> <<<<"h", q, -1>>, <<"s", q, -1>>, <<"h", q, -1>>>>
 =============================================================================
